@@ -27,6 +27,7 @@ mod c11; // C11
 mod c06;
 mod c08;
 mod c09;
+mod c03; // C03
 
 use std::io::{BufRead, Write};
 
@@ -45,6 +46,7 @@ fn main() {
             let out = std::io::stdout();
             let mut out = std::io::BufWriter::new(out.lock());
             let lines = match prop {
+                "C03" => c03::gen(tier, seed), // C03
                 "C09" => c09::gen(tier, seed),
                 "C08" => c08::gen(tier, seed),
                 "C06" => c06::gen(tier, seed),
@@ -87,6 +89,7 @@ fn main() {
                 let l2 = line.clone();
                 let p = prop.to_string();
                 let res = std::panic::catch_unwind(move || match p.as_str() {
+                    "C03" => c03::eval(&l2), // C03
                     "C08" => c08::eval(&l2),
                     "C11" => c11::eval(&l2), // C11
                     "C15" => c15::eval(&l2),
